@@ -145,19 +145,7 @@ func c11(c *ctx) {
 				}
 				return ""
 			},
-			atom: func(v ssa.Value) (string, bool) {
-				if b, ok := v.(*ssa.BinOp); ok && strings.HasPrefix(c.p.path(b.X), "len(") && strings.HasSuffix(c.p.path(b.X), ".Failed)") && c.p.path(b.Y) == "0" {
-					switch b.Op.String() {
-					case "!=":
-						return "anyFailed", false
-					case "==":
-						return "anyFailed", true
-					case ">":
-						return "anyFailed", false
-					}
-				}
-				return "", false
-			},
+			atom:   cmpAtoms(c.p, cmpSpec{"anyFailed", token.NEQ, func(p string) bool { return strings.HasPrefix(p, "len(") && strings.HasSuffix(p, ".Failed)") }, pathIs("0")}),
 			target: tgtOkReturn("ok-return"),
 			reqs: func(string) []string {
 				return []string{"CheckAndSetLastCertificate.ok", "ApplyBlock.ok", "@anyFailed=F", "SetHash.ok", "hashEqual#0=T"}
